@@ -37,6 +37,26 @@ func runRace(c *mon.Ctx, s *slib) {
 			for i, p := range v.P {
 				st = append(st, g.fm.Encode(p, i%3 != 0)...)
 			}
+			// the same slice with several malformed entries spread over the worker chunks: phase two must report them
+			pool := pl.g1
+			if k == ocodec.KG2s {
+				pool = pl.g2
+			}
+			bads := badPoints(g, rng, pool)
+			var noroot []byte
+			for _, b := range bads {
+				if b.cls == "compressed/x-without-root" {
+					noroot = b.b
+				}
+			}
+			bad := []byte{0, 0, 0, byte(n)}
+			for i, p := range v.P {
+				if noroot != nil && (i%16 == 1 || i == n-1) {
+					bad = append(bad, noroot...)
+				} else {
+					bad = append(bad, g.fm.Encode(p, true)...)
+				}
+			}
 			one := g.fm.Encode(v.P[n-1], true)
 			shared := reflectSlice(s, v)
 			var wg sync.WaitGroup
@@ -48,7 +68,20 @@ func runRace(c *mon.Ctx, s *slib) {
 					lr := gen.New(c.Seed, fmt.Sprintf("c07/race/%s/%v/%d/%d", L, k, n, w))
 					for r := 0; r < rounds; r++ {
 						key := fmt.Sprintf("%s/%v/Decoder.Decode/concurrent/n=%s", L, k, sizeClass(v))
-						switch (w + r) % 3 {
+						switch (w + r) % 4 {
+						case 3:
+							if noroot == nil {
+								continue
+							}
+							dec := s.decoder(bytes.NewReader(bad), w%2 == 1)
+							t := s.newTarget(k, 0, nil)
+							var err error
+							if c.Guard(key+"/panic", func() string { return hx(bad) }, func() { err = dec.Decode(t.Interface()) }) {
+								return
+							}
+							c.Check("Decoder.Decode", key+"/nil-error-on-malformed/several-x-without-root", err != nil, func() string {
+								return "a slice with several compressed points without square root decoded without error: " + hx(bad)
+							})
 						case 0, 1:
 							dec := s.decoder(bytes.NewReader(st), w%2 == 1)
 							var dirty *ocodec.Val
